@@ -98,10 +98,13 @@ CLAIMED["C09"] = dict(
     text=("Bounded model checking of the real resolver routines, one rule on one node with the nesting context symbolic: the operator/condition/"
           "index type table for ALL 9x9 static type combinations (rejected iff statically wrong, category named), comot/next iff inside a loop, "
           "return iff inside a function, loop bodies one level deeper, function bodies entered with loop depth 0 and their own function context, "
-          "use of / assignment to / {placeholder} of a name that is not in scope, calls of functions not in scope, builtin arity."),
+          "use of / assignment to / {placeholder} of a name that is not in scope, calls of functions not in scope, builtin arity, and member calls (13 method names x 0..2 arguments x all receiver and "
+          "argument types: unknown method, wrong argument count, statically wrong argument type) against an independent method table."),
     ref="DESIGN.md 3 (C09)",
     note=("Trusted: Kani/CBMC/SAT; recursive calls replaced by contract stubs (infer_expr_type returns ANY static type; check_block records its "
-          "context); composition over whole programs is argued; member-call tables, duplicate/reserved-name rules of predeclare_block_functions "
+          "context); the member-call instances enter a copy of check_expr regenerated from the current source on every run "
+          "(its recursive calls go to a counting stub); composition over whole programs is argued; process-command builder methods, "
+          "duplicate/reserved-name rules of predeclare_block_functions "
           "(HashSet/SipHash) and parser-enforced rules are outside the claim."),
 )
 CLAIMED["C04"] = dict(
@@ -128,13 +131,14 @@ CLAIMED["C02"] = dict(
     text=("Bounded model checking of the reclamation points at unit-contract level, for every string VALUE and ALIASING a caller can hand them "
           "(provenance classes x 2 symbolic bytes), with the location of the result pinned: ArenaCow::promote keeps the bytes, never leaves data "
           "on the frame and copies pool-slot aliases; overwrite_slot stores the assigned value even when it aliases the slot's own storage "
-          "(`x get x`); detach_return_value makes what a return statement hands out independent of pool slots and frame temporaries; "
+          "(`x get x`); detach_return_value makes what a return statement hands out independent of pool slots and frame temporaries, element by element for returned "
+          "arrays (one step of the recursion, 0..2 elements of any kind); "
           "relocate_return_value keeps a returned string intact across the frame reset and the caller's next frame and pool allocations. "
           "NOT the whole-program differential the property states (that needs the evaluator): the contracts of the places where memory is given back."),
     ref="DESIGN.md A.1 / 3 (C02)",
     note=("Trusted: Kani/CBMC/SAT; strings of 2 symbolic bytes; pools laid over small non-split byte buffers (two slots in each of the two smallest "
           "classes, other classes exhausted), PoolSet::contains replaced by its two-class straight-line equivalent (contains itself is C12); arena "
-          "models of 128..960 bytes; arrays, host handles, loop-iteration resets and expression-level interleavings (`x add f()` where f reassigns x) "
+          "models of 128..960 bytes; arrays in promote/relocate, host handles, loop-iteration resets and expression-level interleavings (`x add f()` where f reassigns x) "
           "are outside the claim; composition of the contracts over whole programs is argued."),
 )
 
